@@ -475,6 +475,16 @@ def core_merge_dispatch(tree):
     raise Unsupported("core merge dispatch not found")
 
 
+def ema_formulas(tree):
+    """the closed-form ingredients of emas.py: every assignment to alpha / hl / beta, as (function, target, expression)"""
+    rows = []
+    for fn in [n for n in ast.walk(tree) if isinstance(n, ast.FunctionDef)]:
+        for n in ast.walk(fn):
+            if isinstance(n, ast.Assign) and len(n.targets) == 1 and isinstance(n.targets[0], ast.Name) and n.targets[0].id in ("alpha", "hl", "beta"):
+                rows.append((fn.name, n.targets[0].id, ast.unparse(n.value)))
+    return rows
+
+
 def gen_tables(trees):
     kern = []
     counters = []
@@ -510,6 +520,9 @@ def gen_tables(trees):
     cm_names, cm_red, cm_second = core_merge_dispatch(trees["core"])
     out.append("(* core.py: func_names whose key-chunk results are merged with a fixed reducer, that reducer, and the test of the next branch *)")
     out.append("Definition gen_core_merge_sums : list string * string * string :=\n  (" + coq_str_list(cm_names) + ', "' + cm_red + '", "' + cm_second.replace('"', "'") + '").\n')
+    out.append("(* emas.py: how alpha, the elapsed halflives and the decay factor are computed *)")
+    out.append("Definition gen_ema_formulas : list (string * string * string) :=\n  [" + ";\n   ".join(
+        '("' + '", "'.join(x.replace('"', "'") for x in r) + '")' for r in ema_formulas(trees["emas"])) + "].\n")
     nd = nanops_dispatch(trees["nanops"])
     out.append("(* nanops.reduce_1d: condition on the reducer name, skipna, initial value, reduction of the chunk results *)")
     out.append("Definition gen_nanops_dispatch : list (string * string * string * string) :=\n  [" + ";\n   ".join(
